@@ -60,7 +60,19 @@ theorem cgS_scopes_tail (mod fn : String) (φ : String → Option String) : ∀ 
           cases base <;> try rfl
           rename_i isp ity name g f si
           simp only [cgS]
-          split <;> rfl
+          split
+          · rfl
+          · split <;> rfl
+        case tryE tsp ty t ci c =>
+          obtain ⟨csp', cty', cstmts, coe⟩ := c
+          cases coe with
+          | some _ => rfl
+          | none =>
+            simp only [Frag.depthGS, Frag.depthGBS] at hd
+            simp only [cgS]
+            rw [ihSs loops cstmts _ (by omega)]
+            simp only [freshVar, List.tail_cons]
+            rw [ihB [] t _ (by omega)]
         all_goals rfl
       case whileS sp c body =>
         simp only [Frag.depthGS] at hd
@@ -157,7 +169,25 @@ theorem cgS_vm_mono (mod fn : String) (φ : String → Option String) : ∀ (n :
           cases base <;> try exact Nat.le_refl _
           rename_i isp ity name g f si
           simp only [cgS]
-          split <;> exact Nat.le_refl _
+          split
+          · exact Nat.le_refl _
+          · split <;> exact Nat.le_refl _
+        case tryE tsp ty t ci c =>
+          obtain ⟨csp', cty', cstmts, coe⟩ := c
+          cases coe with
+          | some _ => exact Nat.le_refl _
+          | none =>
+            simp only [Frag.depthGS, Frag.depthGBS] at hd
+            simp only [cgS]
+            have h1 := ihB [] t { env with lm := (freshLabel mod (freshLabel mod env.lm "exception_label").2
+              "after_catch_label").2 } (by omega) k
+            generalize cgBS mod fn φ [] t { env with lm := (freshLabel mod (freshLabel mod env.lm "exception_label").2
+              "after_catch_label").2 } = ct at h1 ⊢
+            have h2 := cnt_freshVar mod { ct.2 with scopes := [] :: ct.2.scopes } ci k
+            have h3 := ihSs loops cstmts (freshVar mod { ct.2 with scopes := [] :: ct.2.scopes } ci).2 (by omega) k
+            have h2' : cnt ct.2.vm k ≤ cnt (freshVar mod { ct.2 with scopes := [] :: ct.2.scopes } ci).2.vm k := by
+              rw [h2]; simp only []; split <;> (try subst_vars) <;> omega
+            exact Nat.le_trans h1 (Nat.le_trans h2' h3)
         all_goals exact Nat.le_refl _
       case whileS sp c body =>
         simp only [Frag.depthGS] at hd
